@@ -69,14 +69,35 @@ def _gen_decisions(rng, n, p):
     return out
 
 
+SWEEP = 96      # raw-call positions enumerated per base workload in the thorough tier
+
+
 def generate(prop, rng, tier):
+    idx = getattr(rng, 'run_index', None)
+    if tier == 'thorough' and idx is not None and (idx // SWEEP) % 3 == 0:
+        # systematic single-fault sweep: SWEEP consecutive run indices share one fault-free base
+        # workload (generated from a seed of their common block) and differ only in the raw-call
+        # position at which the single fault is placed: position = idx % SWEEP, kind cycling with the block
+        from ..core import rng_for
+        base = rng_for(getattr(rng, 'verif_seed', 0), prop, MACHINE + ':sweep', idx // SWEEP)
+        run = _generate(prop, base, tier, force_fault_free=True)
+        k = idx % SWEEP
+        kinds = [['short', 0.0], ['short', 0.5], ['err', errno.EIO], ['err', errno.ENOSPC], ['crash', 0.5], ['crash', 0.0]]
+        run['faults']['io'] = [['ok']] * k + [kinds[(idx // SWEEP // 3) % len(kinds)]]
+        run['swarm']['faulty'] = True
+        run['swarm']['sweep'] = {'block': idx // SWEEP, 'position': k}
+        return run
+    return _generate(prop, rng, tier)
+
+
+def _generate(prop, rng, tier, force_fault_free=False):
     wp = gen.gen_wp(rng)
     nops = rng.randint(6, 14) if tier == 'quick' else rng.randint(10, 30)
     knobs = {'buffer_size': rng.choice([1, 7, 16, 64, 512, 8192]),
              'chunk': rng.choice([1, 5, 32, 8192]),
              'write_through': rng.random() < 0.5,
              'linesep': rng.choice(['\n', '\n', '\r\n'])}
-    faulty = rng.random() >= 0.25
+    faulty = rng.random() >= 0.25 and not force_fault_free
     p = rng.choice([0.02, 0.05, 0.15]) if faulty else 0.0
     decisions = _gen_decisions(rng, rng.choice([50, 300, 1500]), p) if faulty else []
     if faulty and rng.random() < 0.4:
@@ -187,6 +208,8 @@ def execute(world, run, prop=None):
                 rec.step = step
                 before = dict(plan.fired)
                 _exec(spk, rec, op, fs, plan, acked, hand, e)
+                if step == 0 and run['swarm'].get('sweep'):
+                    rec.probe('single_fault_sweep_run')
                 if any(plan.fired[k] != before[k] for k in FAULT_KINDS):
                     rec.probe('fault_inside_' + op['op'])
     finally:
@@ -472,6 +495,8 @@ def simplify(run):
 
 def vary(run, rng):
     ops = run['ops']
+    if run['swarm'].get('sweep'):
+        return      # the runs of a sweep block must share their workload exactly
     if not ops or rng.random() < 0.3:
         return
     for _ in range(rng.randint(1, 3)):
